@@ -19,6 +19,7 @@ package simsync
 import (
 	"runtime"
 	"sort"
+	"strings"
 	"sync"
 	"sync/atomic"
 	"time"
@@ -66,6 +67,7 @@ type Task struct {
 	blocked any  // mutex it failed to acquire; not eligible until that mutex is released
 	parked  bool
 	Steps   int
+	drainSpins int
 }
 
 type Scheduler struct {
@@ -84,19 +86,32 @@ type Scheduler struct {
 	Parks     int
 	// Held tracks which task holds which instrumented mutex (diagnostics, deadlock reports).
 	Held map[any]string
+	// CodecLocks makes the locks of field_map.go scheduling points too.
+	CodecLocks bool
+	// writers counts, per RWMutex, the tasks waiting in Lock: like sync.RWMutex, a waiting writer keeps
+	// new readers out (so a read lock taken twice by one task deadlocks against it).
+	writers map[*sync.RWMutex]int
 }
 
-var (
-	curMu sync.Mutex
-	cur   *Scheduler
-)
+var cur atomic.Pointer[Scheduler]
 
-func Install(s *Scheduler) { curMu.Lock(); cur = s; curMu.Unlock() }
-func current() *Scheduler  { curMu.Lock(); defer curMu.Unlock(); return cur }
+func Install(s *Scheduler) { cur.Store(s) }
+func current() *Scheduler  { return cur.Load() }
+
+// forSite returns the installed scheduler unless the call site is one of the codec's per-message locks
+// (field_map.go) and the scheduler does not ask for those: they are hot, and only a workload that shares
+// one message between tasks (CodecLocks) needs them as scheduling points.
+func forSite(site string) *Scheduler {
+	s := cur.Load()
+	if s != nil && !s.CodecLocks && strings.HasPrefix(site, "field_map.go") {
+		return nil
+	}
+	return s
+}
 
 func NewScheduler() *Scheduler {
 	return &Scheduler{tasks: map[uint64]*Task{}, byName: map[string]*Task{}, parkSig: make(chan struct{}, 1),
-		AutoSites: map[string]string{}, autoCount: map[string]int{}, Held: map[any]string{}}
+		AutoSites: map[string]string{}, autoCount: map[string]int{}, Held: map[any]string{}, writers: map[*sync.RWMutex]int{}}
 }
 
 func goid() uint64 {
@@ -186,6 +201,13 @@ func (s *Scheduler) park(t *Task, site, kind string, blocked any) {
 	if s.drain {
 		s.mu.Unlock()
 		if blocked != nil {
+			// teardown: whoever holds the mutex is draining too and lets go soon - unless the tasks
+			// deadlocked (reported by the driver before it drained): such a task ends here, its deferred
+			// unlocks run
+			t.drainSpins++
+			if t.drainSpins > 200000 {
+				runtime.Goexit()
+			}
 			runtime.Gosched()
 		}
 		return
@@ -210,7 +232,7 @@ type mutexLike interface {
 }
 
 func Lock(m mutexLike, site string) {
-	s := current()
+	s := forSite(site)
 	if s == nil {
 		m.Lock()
 		return
@@ -225,16 +247,25 @@ func Lock(m mutexLike, site string) {
 		t = s.me("anon")
 	}
 	s.park(t, site, "lock", nil)
+	rw, _ := m.(*sync.RWMutex)
+	if rw != nil {
+		s.mu.Lock()
+		s.writers[rw]++
+		s.mu.Unlock()
+	}
 	for !m.TryLock() {
 		s.park(t, site, "blocked", m)
 	}
 	s.mu.Lock()
+	if rw != nil {
+		s.writers[rw]--
+	}
 	s.Held[m] = t.Name
 	s.mu.Unlock()
 }
 
 func Unlock(m mutexLike, site string) {
-	s := current()
+	s := forSite(site)
 	if s == nil {
 		m.Unlock()
 		return
@@ -247,7 +278,7 @@ func Unlock(m mutexLike, site string) {
 }
 
 func RLock(m *sync.RWMutex, site string) {
-	s := current()
+	s := forSite(site)
 	if s == nil {
 		m.RLock()
 		return
@@ -260,13 +291,19 @@ func RLock(m *sync.RWMutex, site string) {
 		t = s.me("anon")
 	}
 	s.park(t, site, "lock", nil)
-	for !m.TryRLock() {
+	for s.writerWaiting(m) || !m.TryRLock() {
 		s.park(t, site, "blocked", m)
 	}
 }
 
+func (s *Scheduler) writerWaiting(m *sync.RWMutex) bool {
+	s.mu.Lock()
+	defer s.mu.Unlock()
+	return s.writers[m] > 0
+}
+
 func RUnlock(m *sync.RWMutex, site string) {
-	s := current()
+	s := forSite(site)
 	if s == nil {
 		m.RUnlock()
 		return
